@@ -349,7 +349,11 @@ func (c *ClientConn) maybePrepareAndExecute(request Request, raw *frame.RawFrame
 					zap.String("host", c.conn.RemoteAddr().String()),
 					zap.String("id", id),
 					zap.Error(err))
-				return false
+				// The statement is known but cannot be re-prepared on this connection (no free stream, connection closing).
+				// `UNPREPARED` means the request was not applied here, so let it move on to the next host instead of handing
+				// the error to the client.
+				request.Execute(true)
+				return true
 			} else {
 				return true
 			}
